@@ -50,7 +50,7 @@ func newArrayWithParser(parser *Parser) (*Array, error) {
 	}
 
 	// Gets all array messages
-	msgs := make([]*Message, arraySize)
+	msgs := make([]*Message, 0, min(arraySize, maxPreallocSize))
 	for n := 0; n < arraySize; n++ {
 		msg, err := parser.Next()
 		if err != nil {
@@ -59,7 +59,7 @@ func newArrayWithParser(parser *Parser) (*Array, error) {
 		if msg == nil {
 			return nil, io.ErrUnexpectedEOF
 		}
-		msgs[n] = msg
+		msgs = append(msgs, msg)
 	}
 	array := &Array{
 		index: 0,
